@@ -58,6 +58,7 @@ Engine T (input-history tree), exact-rational oracle.
      boundary sample reaches the gate), with all standardised-CAV sub-claims against the exact reference.
 """
 import itertools
+import math
 from fractions import Fraction
 
 import numpy as np
@@ -206,6 +207,10 @@ def build(tier, seed):
     long_cfgs = long_configs(tier)
     for dt, n in long_cfgs:
         cases.append({'k': 'cavdp-long', 'dt': dt, 'n': n})
+    # quadrature measures on records longer than any block size an implementation is likely to use (2^16, 10^5), dense motion
+    # across every power-of-two boundary
+    for n in QUAD_LONG_LENGTHS:
+        cases.append({'k': 'quad-long', 'n': n})
     n_dp = sum(nl ** n for _, _, _, n, nl in cfgs)
     reuse_cfgs = [c for c in cfgs if c[4] ** c[3] <= REUSE_CAP[tier]]
     return {
@@ -249,7 +254,7 @@ def build(tier, seed):
                    'cavdp_lattice_pairs': len(long_cfgs), 'cavdp_lattice_contents': LONG_CONTENTS,
                    'cavdp_lattice_max_length': max(n for _, n in long_cfgs),
                    'velocity_option_steps': [t for t, _ in OPTION_STEPS]},
-        'required_classes': ['quad-mixed-sign-acc', 'quad-velocity-sign-change', 'quad-zero-append', 'quad-scaling',
+        'required_classes': ['quad-long-record-over-2^16', 'quad-mixed-sign-acc', 'quad-velocity-sign-change', 'quad-zero-append', 'quad-scaling',
                              'quad-sign-reversal', 'quad-int-input', 'quad-zero-record',
                              'cavdp-none-qualify', 'cavdp-some-qualify', 'cavdp-all-qualify',
                              'cavdp-extra-sample', 'cavdp-tail-only-above-gate', 'cavdp-end-sample-decides',
@@ -919,7 +924,63 @@ def run_cavdp_long(case):
     return r
 
 
+QUAD_LONG_LENGTHS = (4097, 32769, 65535, 65536, 65537, 80000, 100001, 131073, 140000)
+
+
+def run_quad_long(case):
+    """Dense integer-valued record a[i] = ((7 i) mod 5) - 2 (+ a slow drift sign pattern), dt = 0.01: every panel contributes, so a
+    panel dropped anywhere (e.g. between two blocks) shows.  References: the defining sums written with plain numpy reductions over the
+    whole record (integer arithmetic where the summands are integers), compared to 1e-9 of the final value at the end of the record
+    and at the samples around every power of two."""
+    r = Res()
+    n = int(case['n'])
+    dt = 0.01
+    i = np.arange(n)
+    ai = ((7 * i) % 5 - 2) * np.where((i // 1000) % 2 == 0, 1, -1)
+    a = ai.astype(float)
+    r.nontrivial += 1
+    r.cls('quad-long-record')
+    if n > 65536:
+        r.cls('quad-long-record-over-2^16')
+    sig = eqsig.AccSignal(a.copy(), dt)
+    probes = sorted(set([0, 1, n - 1] + [p + d for e in range(10, 18) for p in (2 ** e,) for d in (-2, -1, 0, 1, 2) if 0 < p + d < n]))
+    a2 = ai.astype(np.int64) ** 2
+    arias = np.concatenate([[0], np.cumsum(a2[1:] + a2[:-1])]).astype(float) * (dt / 2.0) * (math.pi / (2 * 9.81))
+    aa = np.abs(ai).astype(np.int64)
+    cav = np.concatenate([[0], np.cumsum(aa[1:] + aa[:-1])]).astype(float) * (dt / 2.0)
+    v_int = np.concatenate([[0], np.cumsum(ai[1:] + ai[:-1])]).astype(np.int64)        # velocity = v_int * dt / 2 (exact integers)
+    v2 = v_int.astype(object) ** 2 if False else v_int.astype(float) ** 2
+    isv = np.concatenate([[0.0], np.cumsum(v2[1:] + v2[:-1])]) * (dt / 2.0) ** 2 * (dt / 2.0)
+    for name, fn, want in (('arias', im.calc_arias_intensity, arias), ('cav', im.calc_cav, cav), ('isv', im.calc_isv, isv)):
+        sub = {'n': n, 'measure': name, 'record': '((7 i) mod 5 - 2) * (+1 / -1 in blocks of 1000), dt = 0.01'}
+        r.states += 1
+        ok, out = r.call('long.' + name, sub, fn, sig)
+        if not ok:
+            continue
+        try:
+            g = np.asarray(out, dtype=float)
+            if g.shape != (n,):
+                r.fail('long.' + name, sub, 'series has shape %r, record length %d' % (g.shape, n))
+                continue
+            r.n_cmp += 2
+            scale = float(want[-1]) or 1.0
+            err = np.abs(g[probes] - want[probes])
+            j = int(np.argmax(err))
+            if not err[j] <= 1e-9 * scale:
+                r.fail('long.' + name, sub, '%s series differs from the defining running integral at sample %d: %r vs %r (final value %r)'
+                       % (name, probes[j], float(g[probes[j]]), float(want[probes[j]]), scale), observed=float(g[probes[j]]),
+                       expected=float(want[probes[j]]))
+            if not bool(np.all(np.diff(g) >= -1e-12 * scale)):
+                r.fail('long.' + name, dict(sub, claim='non-decreasing'), 'series decreases somewhere')
+        except Exception as e:
+            r.fail('long.' + name, sub, 'malformed result: %s' % e)
+    r.expect('long.record-unchanged', {'n': n}, bool(np.array_equal(np.asarray(sig.values, dtype=float), a)), 'the record was modified')
+    return r
+
+
 def run_case(case):
+    if case['k'] == 'quad-long':
+        return run_quad_long(case)
     if case['k'] == 'quad':
         return run_quad(case['w'])
     if case['k'] == 'cavdp-long':
